@@ -3,6 +3,7 @@ import json
 import os
 import re
 
+from .. import access as A
 from .. import cond as C
 from .. import dispatch as D
 from .. import facts as F
@@ -16,8 +17,11 @@ META = {
                    "Not is `a == 0`; BitAnd/BitOr the bit operator; Add/Sub/Mul/Div/Mod are i64::checked_{add,sub,mul,div,rem}(a, b) with None mapped to an error and no wrapping/saturating/raw operator; "
                    "Shl is Shl(a: i64, b), Shr is Shr(a as u64, b) (logical), ShrI is Shr(a: i64, b) (arithmetic), each dominated by success of the bound check whose range is 0..BITS_IN_WORD = 0..64; "
                    "Dup/Swap closures return [w, w] / [b, a]. R3 operand plumbing: pop2 returns [second-popped, first-popped]; popN_pushM call f on the popped words in order and push only the `?`-checked "
-                   "result of f (a failing operation never produces a result); the ExecError index is self.pc read before any pc update. R4 frame conditions: memory readers take &Memory / &[Arc<Memory>].",
-    "not_decided": "the permutations performed by SwapIndex, DupFrom, Select, SelectRange, Reserve, Drop, Load/Store on the stack, range/set equality, LoadRange/StoreRange contents (value-level, declined).",
+                   "result of f (a failing operation never produces a result); the ExecError index is self.pc read before any pc update. R4 frame conditions: memory readers take &Memory / &[Arc<Memory>]. "
+                   "R5 stack effect of fixed-arity ops equals asm.yml; no peeking. R6 the positions that DupFrom, SwapIndex, Load, Store, Reserve, SelectRange, Drop/pop_len_words*, Alloc, Free, "
+                   "Memory Load/Store/LoadRange/StoreRange read and write, as linear forms over the length and the popped operands (len - 1 - index for depth indices, index for bottom-relative ones, "
+                   "[index, index + len) for ranges, old length returned by Reserve/Alloc), the length being read after the operands are popped, and the operand wiring of step_op_memory.",
+    "not_decided": "the contents compared by range/set equality (EqRange, EqSet) beyond the slices handed to the comparison; that Vec/slice primitives (swap, copy_within, truncate, resize, split_at) do what std documents.",
 }
 
 CMPS = {"==": "Eq", ">": "Gt", "<": "Lt", ">=": "Ge", "<=": "Le"}
@@ -234,6 +238,8 @@ def run(ctx):
                         bad.append(ex.loc(bb))
         ctx.ob("R3", "pc-updated-only-after-success", not bad, bad[0] if bad else ex.loc(0), "pc assignments not dominated by `step_op(..) is Ok`: %s" % bad, ex)
     check_stack_effects(ctx, prog, spec, tab, arms)
+    ctx.rule("R6", "addressed positions of the data-movement ops as linear forms of the length and the popped operands (asm.yml: `0` is the top / the bottom, `starting at the index`, `returns the index to the start`); operand wiring of the memory ops")
+    A.check(ctx, "R6")
     # ---- R4 ---------------------------------------------------------------
     for name in ("load", "load_range", "len", "is_empty"):
         f = prog.fn("essential_vm::memory::Memory::" + name)
